@@ -19,7 +19,7 @@ theorem source_ok : cfgOfSource.walRollback = true ∧ cfgOfSource.syncSlot = tr
     `counterexample_node_table_phase` (known finding C08-node-table-apply-failure). -/
 def C08_full : Prop :=
   ∀ (T : List Tx) (fs : FS) (m : Mem) (cs : List CTx) (c : Nat) (tx : Tx) (k : Nat),
-    InvOpen T fs m cs c → validLen fs.wf = fs.wf.length → FreshTx T tx →
+    InvOpen T fs m cs c → TailPre cfgOfSource fs m → FreshTx T tx →
     k < (ioSteps (commitA cfgOfSource m fs.pv fs.wf tx)).length →
     let out := run (commitA cfgOfSource m fs.pv fs.wf tx) (.faultAt k) fs m
     out.err = some .io ∧
@@ -28,40 +28,36 @@ def C08_full : Prop :=
     ∃ T' cs' c', (T' = T ∨ T' = T ++ [tx]) ∧ InvOpen T' out.fs out.mem cs' c'
 
 /-- **C08 (`failed_commit_atomic`), log phase**: an I/O error at ANY I/O step of the log phase of a
-    commit — any of the three writes of any record, or the log sync after CommitTx was written —
-    (1) is reported and leaves the content the handle shows unchanged, and (2) leaves files whose
-    EVERY crash image (process death, power loss with any subset of unsynced writes) represents
-    exactly the old list: the transaction is not there, neither now nor after any reopen. -/
+    commit — the tail cut of the first append through a handle, any of the three writes of any
+    record, or the log sync after CommitTx was written — (1) is reported and leaves the content the
+    handle shows unchanged, and (2) leaves files whose EVERY crash image (process death, power loss
+    with any subset of unsynced writes and any prefix of the unsynced log) represents exactly the
+    old list: the transaction is not there, neither now nor after any reopen. -/
 theorem failed_commit_atomic {T : List Tx} {fs : FS} {m : Mem} {cs : List CTx} {c : Nat}
-    (h : InvOpen T fs m cs c) (hnc : NoCut cfgOfSource m) (hclean : validLen fs.wf = fs.wf.length)
-    (tx : Tx) (hf : FreshTx T tx) (k : Nat) (hk : k ≤ 3 * (txRecs m.nextTxid m.idLen tx).length) :
+    (h : InvOpen T fs m cs c) (ht : TailPre cfgOfSource fs m) (tx : Tx) (hf : FreshTx T tx) (k : Nat)
+    (hk : k ≤ (cutSteps cfgOfSource (m.ws fs.wf)).length + 3 * (txRecs m.nextTxid m.idLen tx).length) :
     let out := run (commitA cfgOfSource m fs.pv fs.wf tx) (.faultAt k) fs m
     out.err = some .io ∧
-    Spec.Content.same (content out.mem fs.pv) (Spec.run T) ∧
+    Spec.Content.same (content out.mem out.fs.pv) (Spec.run T) ∧
     (∀ mode, Rep T (out.fs.crashP mode) (out.fs.crashW mode)) := by
   intro out
-  obtain ⟨h1, h2, h3, _⟩ := failed_commit_wal (cfg := cfgOfSource) source_ok.1 h hnc hclean tx hf k hk
-  refine ⟨h1, ?_, ?_⟩
-  · have hc := content_of_inv h
-    have : content out.mem fs.pv = content m fs.pv := by
-      show content (run _ _ _ _).mem fs.pv = _
-      rw [h2]; rfl
-    rw [this]; exact hc
-  · intro mode
-    obtain ⟨T', hT', hr⟩ := h3 mode
-    simp only [List.mem_singleton] at hT'
-    subst hT'
-    exact hr
+  obtain ⟨h1, h2, _⟩ := failed_commit_wal (cfg := cfgOfSource) source_ok.1 h ht tx hf k hk
+  refine ⟨h1, content_of_inv h2, ?_⟩
+  intro mode
+  obtain ⟨T', hT', hr⟩ := safeFS_of_stable h2.pj h2.wal h2.log h2.pager h2.store mode
+  simp only [List.mem_singleton] at hT'
+  subst hT'
+  exact hr
 
-/-- **C08 (`failed_commit_continues`)**: when the error hits the log sync (CommitTx already written)
-    or one of the writes of the first record, the handle is back in the invariant for the old
-    list with a clean log — so (3) every later commit through the same handle is crash-safe at
-    every step and durable once it returns (`C02.commit_every_step` applies verbatim), and the
-    next open shows the old list plus those commits (`C02.crash_prefix`). -/
+/-- **C08 (`failed_commit_continues`)**: after such a failed commit the handle is back in the
+    invariant for the old list, with a log without torn tail (at most followed by unsynced complete
+    records of the unfinished transaction, which the next BeginTx discards) — so (3) EVERY later
+    commit through the same handle is crash-safe at every step and durable once it returns
+    (`C02.commit_every_step` applies verbatim, stated here for the next commit), a further failed
+    commit is again atomic, and the next open shows the old list plus the later commits. -/
 theorem failed_commit_continues {T : List Tx} {fs : FS} {m : Mem} {cs : List CTx} {c : Nat}
-    (h : InvOpen T fs m cs c) (hnc : NoCut cfgOfSource m) (hclean : validLen fs.wf = fs.wf.length)
-    (tx : Tx) (hf : FreshTx T tx) (k : Nat)
-    (hk : k < 3 ∨ k = 3 * (txRecs m.nextTxid m.idLen tx).length) :
+    (h : InvOpen T fs m cs c) (ht : TailPre cfgOfSource fs m) (tx : Tx) (hf : FreshTx T tx) (k : Nat)
+    (hk : k ≤ (cutSteps cfgOfSource (m.ws fs.wf)).length + 3 * (txRecs m.nextTxid m.idLen tx).length) :
     let out := run (commitA cfgOfSource m fs.pv fs.wf tx) (.faultAt k) fs m
     InvOpen T out.fs out.mem cs c ∧ TailPre cfgOfSource out.fs out.mem ∧
     ∀ tx', FreshTx T tx' →
@@ -69,16 +65,10 @@ theorem failed_commit_continues {T : List Tx} {fs : FS} {m : Mem} {cs : List CTx
         Rep T' ((out.fs.steps ((ioSteps (commitA cfgOfSource out.mem out.fs.pv out.fs.wf tx')).take n)).crashP mode)
           ((out.fs.steps ((ioSteps (commitA cfgOfSource out.mem out.fs.pv out.fs.wf tx')).take n)).crashW mode) := by
   intro out
-  have hk' : k ≤ 3 * (txRecs m.nextTxid m.idLen tx).length := by
-    rcases hk with hk | hk
-    · have : (txRecs m.nextTxid m.idLen tx).length = (body m.idLen tx).length + 2 := by rw [txRecs_eq]; simp
-      omega
-    · omega
-  obtain ⟨_, _, _, h4⟩ := failed_commit_wal (cfg := cfgOfSource) source_ok.1 h hnc hclean tx hf k hk'
-  obtain ⟨hinv, hcl⟩ := h4 hk
-  refine ⟨hinv, Or.inl hcl, ?_⟩
+  obtain ⟨_, hinv, htp⟩ := failed_commit_wal (cfg := cfgOfSource) source_ok.1 h ht tx hf k hk
+  refine ⟨hinv, htp, ?_⟩
   intro tx' hf' n mode
-  exact (C02.commit_every_step hinv (Or.inl hcl) tx' hf').1 n mode
+  exact (C02.commit_every_step hinv htp tx' hf').1 n mode
 
 /-! non-vacuity: the invariant and the hypotheses hold after `open; commit ex_tx1` on a fresh
     database, and the failing step 18 of the next commit is its log sync -/
